@@ -376,7 +376,7 @@ def run(chk: Check) -> int:
                       no_input=True)
         found += 1
     confs = S.all_confs()
-    n = chk.budget(5000, 100000)
+    n = chk.budget(5000, 80000)
     cases = [("corpus:" + name, conf, pairs) for name, conf, pairs in corpus_cases()]
     ncorpus = len(cases)
     for i in range(n):
